@@ -169,7 +169,8 @@ def run(c, facts, tier):
         if via:
             c.ob("C10.all-framed", "<Action as TargetScheme>::compile", a, True, "%s obtains its printer from the manager: `%s`" % (a, " ".join(row["tokens"])))
         elif a == "DefaultPrint":
-            c.ob("C10.all-framed", "<Action as TargetScheme>::compile", a, True, "DefaultPrint prints directly, but it exists only when the expression has no action (C09.wrap), hence complex_frames() is false and the plain manager is in use")
+            okp, badp = c09.premises_hold(facts)
+            c.ob("C10.all-framed", "<Action as TargetScheme>::compile", a, okp, "DefaultPrint prints directly; that is harmless only because it exists solely in expressions without any action (then complex_frames() is false and the plain manager is in use) — premises C09.detect/C09.wrap %s" % ("hold" if okp else "are VIOLATED: %s" % badp[:2]), witness="-name a -fprint out.txt -o -name b" if not okp else None)
         else:
             c.ob(
                 "C10.all-framed",
